@@ -905,3 +905,16 @@ Print Assumptions C08_header_total_src.
 
 (* non-vacuity, through the generated code: two wrapped keys read 3 bytes at a time; cut; bad Option tag; … *)
 Check SrcTie3Header.header_src_examples.
+
+(* ---------- work package cfgT: construction is total: the TRANSLATED ArchiveWriter::from_config returns a value or an error for every configuration; header errors come out first ---------- *)
+From MLA Require Config ConfigProofs SrcTie3Cfg SrcTie3CfgR SrcTie3CfgEx.
+From MLAGen Require Src3f.
+Theorem C08_cfg_writer_total_src : ltac:(let t := type of SrcTie3Cfg.writer_total_src in exact t).
+Proof. exact SrcTie3Cfg.writer_total_src. Qed.
+Print Assumptions C08_cfg_writer_total_src.
+Theorem C08_cfg_with_compression_level_src : ltac:(let t := type of SrcTie3Cfg.with_compression_level_src in exact t).
+Proof. exact SrcTie3Cfg.with_compression_level_src. Qed.
+Print Assumptions C08_cfg_with_compression_level_src.
+Theorem C08_cfg_reader_header_errors_first_src : ltac:(let t := type of SrcTie3CfgR.reader_header_errors_first_src in exact t).
+Proof. exact SrcTie3CfgR.reader_header_errors_first_src. Qed.
+Print Assumptions C08_cfg_reader_header_errors_first_src.
